@@ -29,4 +29,21 @@ with open('/verif/seeded/INDEX.md', 'w') as f:
         f.write('\n## Misses and what was strengthened\n\n')
         for s in missed:
             f.write(f"- **{s['id']}**: {s.get('strengthened','')}\n")
+# condensed catch matrix into DESIGN.md section 12 (between the markers)
+D = '/verif/DESIGN.md'
+d = open(D).read()
+b, e = '<!-- seed-matrix:begin -->', '<!-- seed-matrix:end -->'
+if b in d and e in d:
+    missed = [s for s in rows if s.get('missed_by')]
+    t = [b, '', f'{len(rows)} confirmed changes; {len(rows) - len(missed)} were reported by the check of their own property as it stood when the change arrived, {len(missed)} were missed at first and are reported after the strengthening described below (none is missed now).', '',
+         '| change | breaks (needs) | reported by | first clause |', '|---|---|---|---|']
+    for s in rows:
+        star = ' **(after strengthening)**' if s.get('missed_by') else ''
+        t.append(f"| {s['id']} | {s['change']} *(needs: {s['needs']})* | {', '.join(s['caught_by'])}{star} | {s.get('clauses','')} |")
+    t += ['', '**Misses and what they changed in the machinery**', '']
+    for s in missed:
+        t.append(f"* **{s['id']}** - {s['strengthened']}")
+    t += ['', e]
+    d = d[:d.index(b)] + '\n'.join(t) + d[d.index(e) + len(e):]
+    open(D, 'w').write(d)
 print(len(rows), 'seeds')
